@@ -255,7 +255,8 @@ pub fn apply_rewrite(b: &Building, r: &Rewrite) -> Building {
             }
             o.lines.remove(i);
             for (k, p) in pieces.into_iter().enumerate() {
-                o.lines.insert(i + k, Line { id: l.id, kind: l.kind.clone(), vals: p.iter().map(|c| cents_f32(*c)).collect(), comment: if k == 0 { l.comment.clone() } else { String::new() } });
+                o.lines.insert(i + k, Line { id: l.id, kind: l.kind.clone(), vals: p.iter().map(|c| cents_f32(*c)).collect(), comment: if k == 0 || l.comment.contains("CTEEPBD_") { l.comment.clone() } else { String::new() } });
+                // (a comment that carries a marker such as CTEEPBD_EXCLUYE_SCOP_ACS is part of what the line declares)
             }
         }
     }
